@@ -20,11 +20,82 @@ import (
 	"fmt"
 	"time"
 
+	"github.com/olric-data/olric/internal/cluster/partitions"
+	"github.com/olric-data/olric/internal/discovery"
 	"github.com/olric-data/olric/internal/protocol"
 	"github.com/olric-data/olric/internal/resp"
 	"github.com/olric-data/olric/internal/util"
 	"github.com/olric-data/olric/pkg/storage"
+	"github.com/redis/go-redis/v9"
 )
+
+// partitionOwnerForAtomicOp returns the partition owner of the key and reports whether it is
+// this node. The fine-grained lock that serializes the atomic operations is local to a node.
+// So the read-modify-write cycle has to run on the partition owner.
+func (dm *DMap) partitionOwnerForAtomicOp(e *env) (discovery.Member, bool) {
+	hkey := partitions.HKey(e.dmap, e.key)
+	member := dm.s.primary.PartitionByHKey(hkey).Owner()
+	return member, member.CompareByName(dm.s.rt.This())
+}
+
+func (dm *DMap) incrDecrOnPartitionOwner(cmd string, member discovery.Member, e *env, delta int) (int, error) {
+	var c *redis.IntCmd
+	switch cmd {
+	case protocol.DMap.Incr:
+		c = protocol.NewIncr(e.dmap, e.key, delta).Command(dm.s.ctx)
+	case protocol.DMap.Decr:
+		c = protocol.NewDecr(e.dmap, e.key, delta).Command(dm.s.ctx)
+	default:
+		return 0, fmt.Errorf("invalid operation")
+	}
+	rc := dm.s.client.Get(member.String())
+	err := rc.Process(e.ctx, c)
+	if err != nil {
+		return 0, protocol.ConvertError(err)
+	}
+	res, err := c.Result()
+	if err != nil {
+		return 0, protocol.ConvertError(err)
+	}
+	return int(res), nil
+}
+
+func (dm *DMap) getPutOnPartitionOwner(member discovery.Member, e *env) (storage.Entry, error) {
+	c := protocol.NewGetPut(e.dmap, e.key, e.value).SetRaw().Command(dm.s.ctx)
+	rc := dm.s.client.Get(member.String())
+	err := rc.Process(e.ctx, c)
+	if errors.Is(err, redis.Nil) {
+		// There was no previous value.
+		return nil, nil
+	}
+	if err != nil {
+		return nil, protocol.ConvertError(err)
+	}
+	raw, err := c.Bytes()
+	if errors.Is(err, redis.Nil) {
+		return nil, nil
+	}
+	if err != nil {
+		return nil, protocol.ConvertError(err)
+	}
+	entry := dm.engine.NewEntry()
+	entry.Decode(raw)
+	return entry, nil
+}
+
+func (dm *DMap) incrByFloatOnPartitionOwner(member discovery.Member, e *env, delta float64) (float64, error) {
+	c := protocol.NewIncrByFloat(e.dmap, e.key, delta).Command(dm.s.ctx)
+	rc := dm.s.client.Get(member.String())
+	err := rc.Process(e.ctx, c)
+	if err != nil {
+		return 0, protocol.ConvertError(err)
+	}
+	res, err := c.Result()
+	if err != nil {
+		return 0, protocol.ConvertError(err)
+	}
+	return res, nil
+}
 
 func (dm *DMap) loadCurrentAtomicInt(e *env) (int, int64, error) {
 	entry, err := dm.Get(e.ctx, e.key)
@@ -46,6 +117,11 @@ func (dm *DMap) loadCurrentAtomicInt(e *env) (int, int64, error) {
 }
 
 func (dm *DMap) atomicIncrDecr(cmd string, e *env, delta int) (int, error) {
+	if member, ok := dm.partitionOwnerForAtomicOp(e); !ok {
+		// Redirect to the partition owner.
+		return dm.incrDecrOnPartitionOwner(cmd, member, e, delta)
+	}
+
 	atomicKey := e.dmap + e.key
 	dm.s.locker.Lock(atomicKey)
 	defer func() {
@@ -110,6 +186,11 @@ func (dm *DMap) Decr(ctx context.Context, key string, delta int) (int, error) {
 }
 
 func (dm *DMap) getPut(e *env) (storage.Entry, error) {
+	if member, ok := dm.partitionOwnerForAtomicOp(e); !ok {
+		// Redirect to the partition owner.
+		return dm.getPutOnPartitionOwner(member, e)
+	}
+
 	atomicKey := e.dmap + e.key
 	dm.s.locker.Lock(atomicKey)
 	defer func() {
@@ -169,6 +250,11 @@ func (dm *DMap) GetPut(ctx context.Context, key string, value interface{}) (stor
 }
 
 func (dm *DMap) atomicIncrByFloat(e *env, delta float64) (float64, error) {
+	if member, ok := dm.partitionOwnerForAtomicOp(e); !ok {
+		// Redirect to the partition owner.
+		return dm.incrByFloatOnPartitionOwner(member, e, delta)
+	}
+
 	atomicKey := e.dmap + e.key
 	dm.s.locker.Lock(atomicKey)
 	defer func() {
